@@ -50,8 +50,10 @@ def run(ctx):
     for k in range(n):
         cname = list(crv)[k % len(crv)]
         rf = crv[cname]
-        M = dom.loguniform(rng, 1e-2, 1e6)
-        tau = dom.loguniform(rng, 1e-1, 1e5)
+        # (every third case: the whole range of units a caller may use - scf .. Tcf, seconds .. years; fixed 2026-10, ea995a1: outside
+        # samples x M^2 / tau >= 1e-3 and M < 1e10 the optimiser's unscaled stopping rules used to stop at, or one step from, the initial guess)
+        M = dom.loguniform(rng, 1e-2, 1e6) if k % 3 else dom.loguniform(rng, 1e-9, 1e14)
+        tau = dom.loguniform(rng, 1e-1, 1e5) if k % 3 else dom.loguniform(rng, 1e-3, 1e7)
         t = np.sort(rng.uniform(0, 3 * tau, 40))
         f = ForecasterOnePhase(rf)
         base = np.asarray(f.forecast_cum(t, M, tau), float)
@@ -162,11 +164,12 @@ def run(ctx):
         if fo.tau_ != tau or not dom.relclose(float(fo.M_), mstar, 2e-6):
             bad("with tau supplied, M is not the bounded least-squares optimum over all the samples handed in (long noisy history)", dict(curve="ideal", M=M, tau=tau, samples=nlong, noise="2 % multiplicative"),
                 dict(M=float(fo.M_), optimum=mstar, rel_diff=abs(float(fo.M_) / mstar - 1)))
-    # ---------------- round trip for very small resources in place (M from 1e-9 to 1e-4 in the caller's units): known finding K6
-    # (curve_fit's absolute tolerances stop at the initial guess); reported as a violation only if it fails in another way
+    # ---------------- round trip for very small and very large resources in place (M from 1e-9 to 1e-4 and 1e11 to 1e13 in the caller's
+    # units): finding K6, repaired by ea995a1 (curve_fit's absolute tolerances stopped at the initial guess); the K6 branches below are
+    # active only while known_findings.json lists K6 as known
     k6 = [e for e in core.known_findings(ID) if e["status"] == "known" and e.get("key") == "K6-small-M-round-trip"]
     k6_hits = 0
-    for k in range(4 if ctx.quick else 40):
+    for k in range(12 if ctx.quick else 80):
         rf = crv["analytic"]
         M, tau = dom.loguniform(rng, 1e-9, 1e-4), dom.loguniform(rng, 1.0, 1e4)
         if k % 4 == 3:
@@ -190,6 +193,16 @@ def run(ctx):
             k6_hits += 1
         elif not ok6:
             bad("fitting noise-free production generated from the same curve does not recover M and tau", dict(curve="analytic", M=M, tau=tau), dict(M=float(fo.M_), tau=float(fo.tau_)))
+    w6x = dict(M=1e-4, tau=300.0)
+    fwx = ForecasterOnePhase(crv["analytic"])
+    twx = np.linspace(7.5, 450, 80)
+    with warnings.catch_warnings():
+        warnings.simplefilter("ignore")
+        fwx.fit(twx, w6x["M"] * np.asarray(crv["analytic"](twx / w6x["tau"]), float))
+    ev += 1
+    if not k6 and not (dom.relclose(fwx.M_, w6x["M"], 2e-3) and dom.relclose(fwx.tau_, w6x["tau"], 2e-3)):
+        bad("fitting noise-free production generated from the same curve does not recover M and tau (resource in place of 1e-4 in the caller's units)",
+            dict(curve="analytic", M=w6x["M"], tau=w6x["tau"], times="linspace(7.5, 450, 80)"), dict(M=float(fwx.M_), tau=float(fwx.tau_)))
     if k6:
         w6 = k6[0]["witness"]
         rfw = crv["analytic"]
